@@ -258,6 +258,7 @@ func TestCheck(t *testing.T) {
 	deadline := r.Deadline(90*time.Second, 15*time.Minute)
 	g := buildGrammar()
 	cp := newComposePlan(g, r.Thorough()) // registers the pieces of every value in the value table: before setupEnv
+	zp := newSizePlan(g, r.Thorough())    // size family (size.go); also before setupEnv
 	dirA, dirB := composeDirs(runner.Scratch())
 	if err := setupEnv(dirA); err != nil {
 		r.Infra("cannot fix environment: %v", err)
@@ -330,11 +331,13 @@ func TestCheck(t *testing.T) {
 		nSpell += len(s.sp) + len(s.xsp)
 		nPos += len(s.pos)
 		phase1 = append(phase1, func(w *worker) {
-			for _, sp := range append(append([]spelling(nil), s.sp...), s.xsp...) {
-				tr := []string{triple(s, sp.name)}
-				w.eval("k1", []string{s.site()}, "", tr, g.render([]choice{{s, sp}}, true))
-				w.eval("k1", []string{s.site()}, "", tr, g.render([]choice{{s, sp}}, false))
-			}
+			w.withCensus(func() {
+				for _, sp := range append(append([]spelling(nil), s.sp...), s.xsp...) {
+					tr := []string{triple(s, sp.name)}
+					w.eval("k1", []string{s.site()}, "", tr, g.render([]choice{{s, sp}}, true))
+					w.eval("k1", []string{s.site()}, "", tr, g.render([]choice{{s, sp}}, false))
+				}
+			})
 		})
 		// -- lexical classes at every value position --------------------------------
 		for _, p := range s.pos {
@@ -366,19 +369,23 @@ func TestCheck(t *testing.T) {
 	}
 	// -- standalone files: one empty block / wrapper / comment and nothing else -----------
 	phase1 = append(phase1, func(w *worker) {
-		for _, s := range g.byBlock[""] {
-			for _, sp := range s.sp {
-				for _, pre := range []string{"", "# c\n", "# c \n\n"} {
-					w.eval("standalone", []string{"standalone." + s.name}, "", []string{triple(s, "standalone:"+sp.name)}, pre+sp.text+"\n")
+		w.withCensus(func() {
+			for _, s := range g.byBlock[""] {
+				for _, sp := range s.sp {
+					for _, pre := range []string{"", "# c\n", "# c \n\n"} {
+						w.eval("standalone", []string{"standalone." + s.name}, "", []string{triple(s, "standalone:"+sp.name)}, pre+sp.text+"\n")
+					}
 				}
 			}
-		}
+		})
 	})
 	// -- route layout: channel wrappers / shorthand / bare, quoted and bare paths ---------
 	layoutMax := runner.Pick(r, 3, 4)
 	phase1 = append(phase1, func(w *worker) {
-		layoutPrograms(layoutMax, layoutMax, func(name, text string) {
-			w.eval("layout", []string{"layout"}, "", []string{"(layout," + name[:strings.LastIndexByte(name, 'q')] + ")"}, text)
+		w.withCensus(func() {
+			layoutPrograms(layoutMax, layoutMax, func(name, text string) {
+				w.eval("layout", []string{"layout"}, "", []string{"(layout," + name[:strings.LastIndexByte(name, 'q')] + ")"}, text)
+			})
 		})
 	})
 	// -- value composition: placeholders / literals concatenated at every value position, list context (compose.go) --
@@ -433,6 +440,10 @@ func TestCheck(t *testing.T) {
 		}
 	}
 
+	if os.Getenv("C19_ONLY") == "size" { // debugging aid: only the size family
+		phase1, phase2, llTasks = nil, nil, nil
+		r.NotExhaustive("C19_ONLY=size: every other family skipped")
+	}
 	t0 := time.Now()
 	e.run(phase1)
 	// value composition, second environment: the same texts while none of the referenced
@@ -449,6 +460,22 @@ func TestCheck(t *testing.T) {
 	cp.runCross(e) // restores the first environment
 	e.frozen = nil
 	r.Set("compose_second_env_wall_s", time.Since(tc).Seconds())
+	// size family (size.go): long values / long lists / many routes / long comments and white-space runs,
+	// crossed with the structural contexts. It may use at most 30 % (quick) / 40 % (thorough) of the wall
+	// budget that remains; its tasks are ordered cheap-and-wide first, so a loaded machine cuts the 1 MiB tail.
+	tz := time.Now()
+	sizeTasks := zp.tasks()
+	if limit := tz.Add(deadline.Sub(tz) * time.Duration(runner.Pick(r, 30, 40)) / 100); limit.Before(deadline) {
+		e.deadline = limit
+	}
+	before := e.timedOut
+	e.run(sizeTasks)
+	if e.timedOut && !before {
+		r.Set("size_family_cut_by_budget", true)
+	}
+	e.deadline = deadline
+	r.Set("size_wall_s", time.Since(tz).Seconds())
+	r.Set("size_tasks", len(sizeTasks))
 	// the lexical layer may use at most 60 % of the remaining wall budget, so that a
 	// loaded machine cuts it short (non-exhaustive) and not the k = 2 families after it
 	tl := time.Now()
@@ -491,6 +518,10 @@ func TestCheck(t *testing.T) {
 	r.Set("spellings", nSpell)
 	r.Set("value_positions", nPos)
 	r.Set("lexical_strings_per_form", len(lex))
+	r.Set("size_positions", len(zp.pos))
+	r.Set("size_contexts_route_matcher_plain", []int{len(routeCtxs), len(matcherCtxs), len(plainCtxs)})
+	r.Set("size_stretch_shapes", len(stretches))
+	r.Set("size_length_classes", len(lenClasses))
 	r.Set("compose_positions", len(cp.pos))
 	r.Set("compose_list_directives", len(cp.lists))
 	r.Set("compose_shapes_per_position", runner.Pick(r, cp.nCore, cp.nShapes))
@@ -518,12 +549,19 @@ func TestCheck(t *testing.T) {
 		"placeholders in comments (after the value, line before, file header); list context: every list of 2 and 3 elements over {plain, quoted, one placeholder bare / quoted, two placeholders quoted with and without separator, two placeholders unquoted, literal+placeholder, vars+env} "+
 		"on one line, as repeated directives and mixed, and name/value pairs with composed names and values (one pair: 6 x 6 forms, two pairs); every text under two environments (every referenced variable/file set to its own piece; none of them existing) "+
 		"and the formatted text must not depend on the environment it was formatted in; "+
+		"plus the size family: at every value position, quoted and unquoted, the valid value stretched to 1 KiB, 4 095, 4 096, 4 097, 65 535, 65 536, 65 537 bytes and 1 MiB (v + aaa..., v repeated, v + multi-byte runes, leading zeros, escapes, a run of blanks, a long {$VAR:default} that resolves to v, a long default, a long comment behind / before the directive), "+
+		"in every structural context of its root block (route: bare, shorthand, single route in a wrapper, first / middle / last of 2 and 3 consecutive routes of inbound / outbound / internal, consecutive shorthands, first / last of two bare routes; named matcher: alone, first / last / middle of 2-3; other blocks: as they stand), "+
+		"thorough also lengths aligned so that the formatted line, the source line and the whole formatted text are B-1, B, B+1 bytes for B = 4 096 and 65 536; every repeatable directive and name/value pair directive with 100 / 1 000 / 10 000 / 65 537 elements (one line, repeated, ten per line; alternating two values / numbered; quoted / unquoted), every directive of the table repeated 100 / 1 000 times, "+
+		"100 / 1 000 deliver blocks, secrets, named matchers with references, programs of 100 / 1 000 / 10 000 routes in nine groupings (also with one 65 536 / 65 537 byte value in the first / middle / last route); comment lines and runs of blank lines / blanks / tabs / CRLF of every length class and 100 ... 65 537 comment lines at every token boundary of the base program in the structural contexts "+
+		"(quick: the 65 536 / 65 537 / 1 MiB classes in the contexts bare and middle / last of a three-route inbound wrapper, 1 000 / 10 000 elements); the size family, the k = 1, standalone and layout families are also judged by the survival census (no value of the input AST is missing among the tokens of the formatted text, no AST field occurs less often after the round trip); "+
 		"texts the parser rejects are skipped and counted. A case is distinct/non-trivial when it parsed: key = (block kind, directive, spelling) per chosen slot, or the layout shape.")
 	r.Assume("environment is fixed by the harness: C19_E<n> env vars and c19f_e<n> files (relative to a private cwd) hold the placeholder values, C19_UNSET is unset; nothing else of the process environment is referenced by generated texts")
 	r.Assume("ValidationResult is compared as OK + multiset of Errors + multiset of Warnings (exact text, no positions are embedded by Compile): compileVars ranges over a Go map, so the order of several vars errors is undefined even for a single AST")
 	r.Assume("Compiled is compared with reflect.DeepEqual; generated numeric values never produce NaN (NaN != NaN would be a false difference)")
 	r.Assume("value composition: the environment is switched for the whole process between two fixed states (every C19_E<n> variable and c19f_e<n> file holds its piece / none exists, C19_UNSET never exists); values of other shapes of the environment (a variable holding blanks, braces, quotes or another placeholder; files with a trailing newline) are not enumerated; "+
 		"the cross-environment clause compiles the text formatted under the first environment in the second one only when the two formatted texts differ (equal texts need no second compile)")
+	r.Assume("size family: lengths are the usual machine boundaries (page, 64 KiB, 1 MiB), not limits read from the code; nothing above 1 MiB per value, 65 537 list elements and 10 000 routes is generated; a long value is one periodic run (a, ä, \\\\, \\\", blank, 0, or v itself), not arbitrary content; "+
+		"for the aligned lengths the real formatter is used as a ruler on a short twin (generator only: a wrong ruler shifts the lengths, never the verdict); the survival census reads the formatted text with the harness's own token reader and counts AST fields by reflection (exported fields, ...Quoted flags, header comments and channel types left out)")
 	r.Assume("lexical layer: the token split is done by the harness on its own rendered text (blank/LF separated, quotes and placeholders kept whole) and is only a generator; whether a symbol separates tokens, joins them, starts a comment or is rejected is left to the parser, and every accepted text is judged by the same round-trip oracle. Comments longer than ~40 bytes, more than two varied boundaries per file, and k = 2 programs under the lexical layer are not enumerated")
 	r.Assume("a text that does not parse cannot be formatted: checked as 'config.Parse never returns an error together with an AST' (every caller formats only what Parse returned without error)")
 	r.Assume("bounded: at most two optional slots vary per program (plus their required siblings/referenced blocks); interactions of three or more directives are not enumerated; comments are semantic no-ops and only their acceptance/stability is checked")
